@@ -49,6 +49,7 @@ func (e *Exec) execStdlibSync(fr *Frame, st *State, in ssa.CallInstruction, c *s
 		return vUnit(), true
 	case "sync.(*Mutex).Unlock", "sync.(*RWMutex).Unlock":
 		if a := argAddr(0); a != nil {
+			e.leaveMonitor(fr, st, in.(ssa.Instruction), a)
 			delete(st.held, lockKey(a))
 			delete(st.held, "r:"+lockKey(a))
 		}
@@ -90,9 +91,29 @@ func (e *Exec) execStdlibSync(fr *Frame, st *State, in ssa.CallInstruction, c *s
 	case "context.WithCancel":
 		r1 := e.alloc(st, "ctx", nil)
 		r2 := e.alloc(st, "cancel", nil)
+		if e.gfDeclared("cancelled") && e.gfDeclared("ctxOf") && e.gfDeclared("ctxParent") {
+			// a new context is not cancelled; its cancel function cancels it; it is also
+			// done when its parent is
+			e.upd(st, "GF_cancelled", "Bool", r1, "false")
+			e.upd(st, "GF_ctxOf", "Int", r2, r1)
+			e.upd(st, "GF_ctxParent", "Int", r1, e.val(fr, c.Args[0], st).t())
+		}
 		return Val{K: KTuple, T: rt, F: []Val{vRef(r1), vRef(r2)}}, true
 	case "context.Background":
-		return vRef(e.alloc(st, "ctx", nil)).withT(rt), true
+		r := e.alloc(st, "ctx", nil)
+		if e.gfDeclared("bgctx") {
+			e.upd(st, "GF_bgctx", "Bool", r, "true")
+		}
+		return vRef(r).withT(rt), true
+	case "time.NewTicker":
+		r := e.alloc(st, "ticker", nil)
+		if e.gfDeclared("tickPeriod") && e.gfDeclared("lastTick") {
+			e.upd(st, "GF_tickPeriod", "Int", r, e.val(fr, c.Args[0], st).t())
+			e.upd(st, "GF_lastTick", "Int", r, e.clockTick(st))
+		}
+		return vRef(r).withT(rt), true
+	case "time.(*Ticker).Stop":
+		return vUnit(), true
 	}
 	return Val{}, false
 }
@@ -103,14 +124,115 @@ func (e *Exec) clockTick(st *State) string {
 	n := e.S.Fresh("now", "Int")
 	if ok {
 		e.S.Assert(sx(">=", n, cur.t()))
+		if sl, has := st.ghost["slack"]; has {
+			// scheduling slack: between two consecutive clock observations of running
+			// (not blocked) code at most `slack` passes
+			e.S.Assert(sx("<=", sx("-", n, cur.t()), sl.t()))
+		}
 		st.ghost["clock"] = vInt(n).withT(cur.T)
 	}
 	return n
 }
 
+// clockBlocked: a blocking operation may take any amount of time.
+func (e *Exec) clockBlocked(st *State) string {
+	cur, ok := st.ghost["clock"]
+	if !ok {
+		return ""
+	}
+	n := e.S.Fresh("woke", "Int")
+	e.S.Assert(sx(">=", n, cur.t()))
+	st.ghost["clock"] = vInt(n).withT(cur.T)
+	return n
+}
+
+func (e *Exec) gfDeclared(name string) bool {
+	_, ok := e.P.CS.GhostFields[name]
+	return ok
+}
+
+const tickerChanOrigin = "H_time_Ticker_C"
+const ctxDoneOrigin = "context.Done"
+
 // enterMonitor: on acquiring a lock, fields guarded by it take arbitrary
 // values satisfying the monitor invariant (none declared: just havoc).
-func (e *Exec) enterMonitor(fr *Frame, st *State, a *Addr) {}
+func (e *Exec) enterMonitor(fr *Frame, st *State, a *Addr) {
+	for _, fd := range e.monitorDecls(a) {
+		// the protected field may have been changed by other holders of the lock:
+		// arbitrary value related to the last known one by the monitor's two-state invariant
+		pre := st.clone()
+		ft := e.monitorFieldType(a, fd)
+		if ft == nil {
+			continue
+		}
+		fresh := e.freshVal("mon_"+fd.Field, ft, kindOf(ft))
+		e.writeAt(st, fieldArrName(a.T, fd.Field), ft, a.base, fresh)
+		env := e.monitorEnv(fr, st, pre, a)
+		e.S.Assert(sImp(st.reach, e.evalBool(env, fd.Inv)))
+		if e.monAcq == nil {
+			e.monAcq = map[string]*State{}
+		}
+		e.monAcq[lockKey(a)+"/"+fd.Field] = st.clone()
+	}
+}
+
+// leaveMonitor: what this holder did to the protected field must itself satisfy
+// the monitor's two-state invariant (relative to the value found on entry).
+func (e *Exec) leaveMonitor(fr *Frame, st *State, in ssa.Instruction, a *Addr) {
+	for _, fd := range e.monitorDecls(a) {
+		acq := e.monAcq[lockKey(a)+"/"+fd.Field]
+		if acq == nil {
+			continue
+		}
+		env := e.monitorEnv(fr, st, acq, a)
+		g := e.evalBool(env, fd.Inv)
+		e.oblige(st, fmt.Sprintf("monitor:%s.%s:release:%d", lastSeg(fd.Type), fd.Field, e.ord[in]), "monitor", fd.Tags, g,
+			"on release of "+fd.Args[0]+": "+fd.InvText, in.Pos())
+	}
+}
+
+func (e *Exec) monitorEnv(fr *Frame, st, old *State, a *Addr) *Env {
+	self := vRef(a.base).withT(types.NewPointer(a.T))
+	var pkg *types.Package
+	if n, ok := types.Unalias(a.T).(*types.Named); ok {
+		pkg = n.Obj().Pkg()
+	}
+	oenv := &Env{e: e, pkg: pkg, vars: map[string]Val{"self": self}, st: old, ctx: "monitor invariant"}
+	return &Env{e: e, pkg: pkg, vars: map[string]Val{"self": self}, st: st, old: oenv, ctx: "monitor invariant"}
+}
+
+func (e *Exec) monitorDecls(a *Addr) []*FieldDecl {
+	if a == nil || a.kind != aField || e.prov[a.base] == "fresh" {
+		return nil
+	}
+	var out []*FieldDecl
+	for _, fd := range e.P.CS.Fields {
+		if fd.Mode != "monitor" || fd.Args[0] != a.path {
+			continue
+		}
+		var pk *types.Package
+		if sp := e.P.SPkgs[fd.PkgPath]; sp != nil {
+			pk = sp.Pkg
+		}
+		if t := resolveTypeIn(e.P, pk, fd.Type); t != nil && types.Identical(t, a.T) {
+			out = append(out, fd)
+		}
+	}
+	return out
+}
+
+func (e *Exec) monitorFieldType(a *Addr, fd *FieldDecl) types.Type {
+	stt, _ := structOf(a.T)
+	if stt == nil {
+		return nil
+	}
+	for i := 0; i < stt.NumFields(); i++ {
+		if stt.Field(i).Name() == fd.Field {
+			return stt.Field(i).Type()
+		}
+	}
+	return nil
+}
 
 // ---- discipline -----------------------------------------------------------------
 
@@ -280,10 +402,18 @@ func (e *Exec) callOpaque(fr *Frame, st *State, in ssa.CallInstruction, c *ssa.C
 		e.note("opaque-call: %s calls a function value (result unconstrained; heap havocked)", dispName(fr.fn))
 		e.havocAll(st)
 	}
+	if isCancelFunc(c.Value.Type()) && e.gfDeclared("cancelled") && e.gfDeclared("ctxOf") {
+		// calling a context's cancel function cancels that context
+		e.upd(st, "GF_cancelled", "Bool", e.sel(st, "GF_ctxOf", "Int", fv.t()), "true")
+	}
 	r := e.freshVal("fres", rt, kindOf(rt))
 	e.typeFacts(r, rt, st)
 	e.afterCallback(fr, st, in, c, fv, r)
 	return r
+}
+
+func isCancelFunc(t types.Type) bool {
+	return types.TypeString(types.Unalias(t), nil) == "context.CancelFunc"
 }
 
 // paramCallback: calls of function-typed parameters declared in the contract
@@ -338,6 +468,67 @@ func (e *Exec) afterCallback(fr *Frame, st *State, in ssa.CallInstruction, c *ss
 
 func (e *Exec) execGo(fr *Frame, st *State, x *ssa.Go) {
 	e.note("%s: go statement (spawned function verified separately if under contract)", dispName(fr.fn))
+	c := x.Common()
+	callee := c.StaticCallee()
+	if callee != nil && inModule(callee) {
+		if fc := e.P.contractFor(callee); fc != nil && !c.IsInvoke() {
+			// the spawned function starts in the spawner's current state: its
+			// preconditions are obligations of the spawner
+			fc.Used = true
+			args := e.callArgs(fr, st, c)
+			var pk *types.Package
+			if sp := e.P.SPkgs[fc.PkgPath]; sp != nil {
+				pk = sp.Pkg
+			}
+			penv := &Env{e: e, pkg: pk, vars: map[string]Val{}, st: st, ctx: "go " + dispName(callee)}
+			e.bindParams(penv, fc, callee, args)
+			if mc, ok := c.Value.(*ssa.MakeClosure); ok {
+				binds := e.val(fr, mc, st).Elems
+				for i, fv := range callee.FreeVars {
+					if i >= len(binds) {
+						break
+					}
+					if pt, ok := fv.Type().Underlying().(*types.Pointer); ok {
+						if _, isStruct := pt.Elem().Underlying().(*types.Struct); !isStruct || isOpaqueStruct(pt.Elem()) {
+							penv.vars[fv.Name()] = e.readCell(st, binds[i].t(), pt.Elem())
+							continue
+						}
+					}
+					penv.vars[fv.Name()] = binds[i]
+				}
+			}
+			k := 0
+			name := callee.Name()
+			if cs, ok := e.callOrd[x]; ok {
+				k, name = cs.k, cs.name
+			}
+			if fc.IsClosure {
+				name = fc.Label
+			}
+			for i, rq := range fc.Requires {
+				lbl := rq.Label
+				if lbl == "" {
+					lbl = fmt.Sprintf("%d", i+1)
+				}
+				g := e.evalBool(penv, rq.Expr)
+				e.oblige(st, fmt.Sprintf("go:%s#%d:pre:%s", name, k, lbl), "pre", rq.Tags, g, rq.Text, x.Pos())
+			}
+		}
+	}
+	if fr.top && e.fc != nil {
+		if cs, ok := e.callOrd[x]; ok && e.hasSiteAfter(cs) {
+			var args []*Val
+			for _, a := range c.Args {
+				if _, isAddr := fr.addrs[a]; !isAddr {
+					av := e.val(fr, a, st)
+					args = append(args, &av)
+				} else {
+					args = append(args, nil)
+				}
+			}
+			e.runSiteAfter(fr, st, x, cs, args, nil)
+		}
+	}
 }
 
 func (e *Exec) execSelect(fr *Frame, st *State, x *ssa.Select) {
@@ -356,9 +547,51 @@ func (e *Exec) execSelect(fr *Frame, st *State, x *ssa.Select) {
 	}
 	fr.vals[x] = res
 	e.selectHook(fr, st, x, res)
+	e.selectTiming(fr, st, x, idx)
+}
+
+// selectTiming: a blocking select may take any amount of time, except that a
+// ticker's channel delivers within one period (plus scheduling slack) of its
+// previous delivery; a context's Done channel is ready only once the context
+// (or an ancestor other than the background context) has been cancelled.
+func (e *Exec) selectTiming(fr *Frame, st *State, x *ssa.Select, idx string) {
+	var now string
+	if x.Blocking {
+		now = e.clockBlocked(st)
+	}
+	for i, s := range x.States {
+		if s.Dir != types.RecvOnly {
+			continue
+		}
+		ch := e.val(fr, s.Chan, st)
+		taken := sEq(idx, sInt(int64(i)))
+		switch ch.Origin {
+		case tickerChanOrigin:
+			if now == "" || !e.gfDeclared("tickPeriod") || !e.gfDeclared("lastTick") {
+				continue
+			}
+			tk := ch.OriginBase
+			last := e.sel(st, "GF_lastTick", "Int", tk)
+			per := e.sel(st, "GF_tickPeriod", "Int", tk)
+			bound := per
+			if sl, has := st.ghost["slack"]; has {
+				bound = sx("+", per, sl.t())
+			}
+			e.S.Assert(sImp(sAnd(st.reach, taken), sx("<=", sx("-", now, last), bound)))
+			e.upd(st, "GF_lastTick", "Int", tk, sIte(taken, now, last))
+		case ctxDoneOrigin:
+			if !e.gfDeclared("cancelled") || !e.gfDeclared("ctxParent") || !e.gfDeclared("bgctx") {
+				continue
+			}
+			cx := ch.OriginBase
+			par := e.sel(st, "GF_ctxParent", "Int", cx)
+			e.S.Assert(sImp(sAnd(st.reach, taken), sOr(e.sel(st, "GF_cancelled", "Bool", cx), sNot(e.sel(st, "GF_bgctx", "Bool", par)))))
+		}
+	}
 }
 
 func (e *Exec) execSend(fr *Frame, st *State, x *ssa.Send) {
+	e.clockBlocked(st)
 	e.sendHook(fr, st, x)
 	e.handOver(fr, st, e.val(fr, x.X, st), "true")
 	if fr.top && e.fc != nil {
@@ -370,6 +603,7 @@ func (e *Exec) execSend(fr *Frame, st *State, x *ssa.Send) {
 }
 
 func (e *Exec) execRecv(fr *Frame, st *State, x *ssa.UnOp) {
+	e.clockBlocked(st)
 	var v Val
 	if x.CommaOk {
 		tp := x.Type().(*types.Tuple)
@@ -540,6 +774,7 @@ func (e *Exec) execMapLookup(fr *Frame, st *State, x *ssa.Lookup) {
 	dn, ds, vn, vsrt, ok := e.mapArrs(mt)
 	m := e.val(fr, x.X, st)
 	k := e.val(fr, x.Index, st)
+	e.disciplineMap(fr, st, x, x.X, false)
 	var vt types.Type = x.Type()
 	if x.CommaOk {
 		vt = x.Type().(*types.Tuple).At(0).Type()
@@ -614,6 +849,37 @@ func (e *Exec) disciplineMap(fr *Frame, st *State, in ssa.Instruction, m ssa.Val
 	if u, ok := m.(*ssa.UnOp); ok {
 		if a, ok := fr.addrs[u.X]; ok && write {
 			e.disciplineAccess(fr, st, in, a, true)
+			return
 		}
 	}
+	// the map value itself was read from a protected field earlier (possibly under
+	// the lock): its contents need the protection at the time they are accessed
+	mv := e.val(fr, m, st)
+	if mv.Origin == "" || e.fc == nil || e.prov[mv.OriginBase] == "fresh" {
+		return
+	}
+	e.P.initFieldDecls()
+	fd := e.P.fdCache[mv.Origin]
+	if fd == nil || (fd.Mode != "guarded_by" && fd.Mode != "owner_writes") {
+		return
+	}
+	var T types.Type
+	if sp := e.P.SPkgs[fd.PkgPath]; sp != nil {
+		T = resolveTypeIn(e.P, sp.Pkg, fd.Type)
+	}
+	if T == nil {
+		return
+	}
+	lk := fieldArrName(T, fd.Args[0]) + "@" + mv.OriginBase
+	ok := st.held[lk] || (!write && st.held["r:"+lk])
+	kind := "read"
+	if write {
+		kind = "write"
+	}
+	e.callSeen["map:"+fd.Field]++
+	name := fmt.Sprintf("guard:map%s:%s.%s:%d", kind, lastSeg(fd.Type), fd.Field, e.callSeen["map:"+fd.Field])
+	if !fr.top {
+		name = fr.site + "/" + fnKey(fr.fn) + "#" + name
+	}
+	e.oblige(st, name, "discipline", fd.Tags, boolStr(ok), fmt.Sprintf("%s of the contents of %s.%s requires %s to be held", kind, fd.Type, fd.Field, fd.Args[0]), in.Pos())
 }
